@@ -19,15 +19,16 @@ import numpy as np
 import core
 from ser import rat, q
 
-LEAN_MODULE = "Optyx.Props.C08"
+LEAN_MODULE = "Optyx.Props.C08b"
 THEOREMS = [
+    "Optyx.Props.C08.lp_end_to_end",
     "Optyx.Props.C08.lp_pipeline_faithful",
     "Optyx.Props.C08.feasible_iff",
     "Optyx.Props.C08.lpStatus_table",
 ]
 ASSUMPTIONS = [
     "scipy.optimize.linprog meets its documented contract on the data it is given (LinprogContract): the inside of HiGHS is trusted",
-    "the extracted data denote the user's model: that is property C05 (extractLP_sound)",
+    "lp_end_to_end composes C05's extractLP_sound (proved) with the pipeline theorem: the only unproved assumption left is the solver contract",
 ]
 METHODS = ["auto", "linprog", "highs", "highs-ds", "highs-ipm"]
 REF_STATUS = {0: "OPTIMAL", 1: "MAX_ITERATIONS", 2: "INFEASIBLE", 3: "UNBOUNDED"}
